@@ -81,6 +81,7 @@ func checkC01(c *fw.Ctx) {
 	checkSortJSON(c)
 	checkEnforceFlag(c)
 	checkMinusSign(c)
+	checkMinusHelper(c)
 }
 
 func isParam(v ssa.Value, fn *ssa.Function, idx int) bool {
@@ -363,69 +364,121 @@ func checkEnforceFlag(c *fw.Ctx) {
 	}
 	c.SawFn(short)
 	checkRangeOperand(c, fn)
-	fam := fw.FamilyOf(fn)
-	// the flag: a *bool alloc in fn captured by a closure
-	var flags []*ssa.Alloc
-	for _, b := range fn.Blocks {
-		for _, ins := range b.Instrs {
-			if a, ok := ins.(*ssa.Alloc); ok && a.Heap {
-				if bt, ok := a.Type().Underlying().(*types.Pointer).Elem().Underlying().(*types.Basic); ok && bt.Kind() == types.Bool {
-					flags = append(flags, a)
+	// verdict flags: booleans of the enforcement function (or of an unexported helper it calls,
+	// e.g. a recursive visitor) that are captured by a visitor closure
+	nflags := 0
+	for _, host := range fw.RegionOf(fn, nil) {
+		if host.Parent() != nil {
+			continue
+		}
+		fam := fw.FamilyOf(host)
+		var flags []*ssa.Alloc
+		for _, b := range host.Blocks {
+			for _, ins := range b.Instrs {
+				if a, ok := ins.(*ssa.Alloc); ok && a.Heap {
+					if bt, ok := a.Type().Underlying().(*types.Pointer).Elem().Underlying().(*types.Basic); ok && bt.Kind() == types.Bool {
+						flags = append(flags, a)
+					}
 				}
 			}
 		}
+		for _, flag := range flags {
+			nflags++
+			name := fw.FuncName(host) + ": verdict flag " + flag.Comment
+			// stores in closures (through FreeVars bound to flag)
+			bad, computed := 0, 0
+			for _, f := range fam {
+				if f == host {
+					continue // initialisation / use in the outer function
+				}
+				for _, b := range f.Blocks {
+					for _, ins := range b.Instrs {
+						st, ok := ins.(*ssa.Store)
+						if !ok || !refersTo(st.Addr, flag, f) {
+							continue
+						}
+						if _, isC := st.Val.(*ssa.Const); isC {
+							continue // a constant verdict (lowering, or raising `found`)
+						}
+						computed++
+						// a computed verdict overwrites the previous one: harmless only if the visitor
+						// stops as soon as the verdict is bad, i.e. what it returns depends on the flag
+						stops := true
+						for _, r := range fw.Returns(f) {
+							if !reachesInstr(st, r) {
+								continue
+							}
+							for _, res := range r.Results {
+								if _, isC := fw.LoadOrigin(res).(*ssa.Const); isC {
+									stops = false
+								}
+							}
+						}
+						if !stops {
+							bad++
+							c.Fail(rule, name+" is never overwritten by a later, better verdict", c.P.Pos(fw.InstrPos(st)), "the visitor assigns a computed value to the verdict flag and keeps iterating (it returns a constant): a later acceptable sibling overwrites an earlier rejection (e.g. {\"a\":[1.5],\"b\":[1]})")
+						}
+					}
+				}
+			}
+			// with a computed verdict, a visitor that re-enters the traversal (nested ForEach, recursion)
+			// and then carries on regardless lets a later sibling overwrite what the nested traversal found
+			if computed > 0 {
+				for _, f := range fam {
+					if f == host {
+						continue
+					}
+					for _, call := range fw.Calls(f) {
+						n := fw.CalleeName(call)
+						reenters := strings.HasSuffix(n, ".ForEach")
+						if callee := call.Common().StaticCallee(); callee != nil {
+							for _, m := range fam {
+								if callee == m {
+									reenters = true
+								}
+							}
+						}
+						if !reenters {
+							continue
+						}
+						for _, r := range fw.Returns(f) {
+							if !reachesInstr(call.(ssa.Instruction), r) {
+								continue
+							}
+							for _, res := range r.Results {
+								if cst, isC := fw.LoadOrigin(res).(*ssa.Const); isC && cst.Value != nil && cst.Value.String() == "true" {
+									bad++
+									c.Fail(rule, name+" is never overwritten by a later, better verdict", c.P.Pos(fw.InstrPos(r)), "the verdict is a computed value, and after a nested traversal the visitor continues unconditionally (returns true): a bad number nested in an earlier container is forgotten when a later sibling is acceptable")
+								}
+							}
+						}
+					}
+				}
+			}
+			if bad == 0 {
+				c.Ok(rule, name+" is never overwritten by a later, better verdict", c.P.Pos(flag.Pos()), "")
+			}
+		}
+		// success <= flag true (the flag idiom of the enforcement function itself)
+		if host == fn && len(flags) > 0 {
+			g := fw.GuardCond("verdict flag still true", func(v ssa.Value) (bool, bool) {
+				u, ok := v.(*ssa.UnOp)
+				if !ok || u.Op != token.MUL {
+					return false, false
+				}
+				for _, fl := range flags {
+					if u.X == ssa.Value(fl) {
+						return true, true
+					}
+				}
+				return false, false
+			})
+			c.CheckGate(rule, fn, short, g, fw.ErrNilSuccess(fn, fw.ErrIndex(fn), nil))
+		}
 	}
-	if len(flags) == 0 {
-		// no captured flag: accept a design where the visitor's result is returned directly
+	if nflags == 0 {
 		c.Undecided(rule, short+": verdict flag", "no captured boolean verdict flag found; the visitor idiom changed and the monotonicity rule cannot be evaluated")
-		return
 	}
-	for _, flag := range flags {
-		name := flag.Comment
-		// stores in fn itself (initialisation) and in closures (through FreeVars bound to flag)
-		bad := 0
-		lowered := 0
-		for _, f := range fam {
-			for _, b := range f.Blocks {
-				for _, ins := range b.Instrs {
-					st, ok := ins.(*ssa.Store)
-					if !ok {
-						continue
-					}
-					if !refersTo(st.Addr, flag, f) {
-						continue
-					}
-					cst, isC := st.Val.(*ssa.Const)
-					if f == fn {
-						continue // initialisation in the outer function
-					}
-					if isC && cst.Value != nil && cst.Value.String() == "false" {
-						lowered++
-						continue
-					}
-					bad++
-					c.Fail(rule, short+": verdict flag "+name+" is only ever lowered", c.P.Pos(fw.InstrPos(st)), "the visitor assigns a non-constant (or true) value to the verdict flag: a later acceptable value can overwrite an earlier rejection (e.g. a bad number nested before a good sibling)")
-				}
-			}
-		}
-		if bad == 0 {
-			c.Check(lowered > 0, rule, short+": verdict flag "+name+" is only ever lowered", c.P.Pos(flag.Pos()), fmt.Sprintf("%d lowering store(s), none raising", lowered), "the visitor never lowers the verdict flag")
-		}
-	}
-	// success <= flag true
-	g := fw.GuardCond("verdict flag still true", func(v ssa.Value) (bool, bool) {
-		u, ok := v.(*ssa.UnOp)
-		if !ok || u.Op != token.MUL {
-			return false, false
-		}
-		for _, fl := range flags {
-			if u.X == ssa.Value(fl) {
-				return true, true
-			}
-		}
-		return false, false
-	})
-	c.CheckGate(rule, fn, short, g, fw.ErrNilSuccess(fn, fw.ErrIndex(fn), nil))
 }
 
 // refersTo: addr is the alloc itself (in its own function) or the FreeVar bound to it in closure f.
@@ -553,4 +606,89 @@ func checkMinusSign(c *fw.Ctx) {
 		c.Check(helper || len(idxs) >= 2, rule, "CompactJSON: a '-' is dropped only after looking beyond the following '0'", c.P.Pos(fw.InstrPos(iff)), "", fmt.Sprintf("the sign is skipped after examining %d input byte(s) after it: \"-0.5\" becomes \"0.5\" and \"1e-05\" becomes \"1e05\" (the value changes)", len(idxs)))
 	}
 	c.Min(rule+" tests for '-' in CompactJSON", n, 1)
+}
+
+// checkMinusHelper: when the decision "this '-' is the sign of the number -0" lives in a helper
+// whose conditions are plain byte comparisons at fixed offsets from its index parameter, its
+// decision table is compared with the JSON number grammar over every class of the byte that
+// follows the zero and of the byte before the sign. Any other shape is left undecided.
+func checkMinusHelper(c *fw.Ctx) {
+	rule := "8 minus-sign"
+	fn := c.P.Func("CompactJSON")
+	if fn == nil {
+		return
+	}
+	var helper *ssa.Function
+	for _, call := range fw.Calls(fn) {
+		cc, ok := call.(*ssa.Call)
+		if !ok {
+			continue
+		}
+		h := fw.Followable(cc, nil)
+		if h == nil || h.Signature.Results().Len() != 1 || len(h.Params) != 2 {
+			continue
+		}
+		if b, isB := h.Signature.Results().At(0).Type().Underlying().(*types.Basic); !isB || b.Kind() != types.Bool {
+			continue
+		}
+		if len(cc.Call.Args) == 2 && cc.Call.Args[0] == ssa.Value(fn.Params[0]) {
+			helper = h
+		}
+	}
+	if helper == nil {
+		return
+	}
+	in, ix := "param:"+helper.Params[0].Name(), "param:"+helper.Params[1].Name()
+	next, prev := "*"+in+"[("+ix+" + 1)]", "*"+in+"[("+ix+" - 2)]"
+	nextClasses := []string{",", "]", "}", " ", "\t", "\n", "\r", ".", "e", "E", "EOF"}
+	prevClasses := []string{"e", "E", ":", "[", ",", " ", "NONE"}
+	ip := &interp{match: func(atom string, a asg) (bool, bool) {
+		if l, r, ok := parseEq(atom); ok {
+			n, isNum := 0, false
+			if _, err := fmt.Sscanf(r, "%d", &n); err == nil {
+				isNum = true
+			}
+			if isNum && l == next {
+				return a["next"] != "EOF" && a["next"] == string(rune(n)), true
+			}
+			if isNum && l == prev {
+				return a["prev"] != "NONE" && a["prev"] == string(rune(n)), true
+			}
+		}
+		switch atom {
+		case "((" + ix + " + 1) < builtin.len(" + in + "))":
+			return a["next"] != "EOF", true
+		case "(" + ix + " >= 2)":
+			return a["prev"] != "NONE", true
+		case "(builtin.len(" + in + ") <= (" + ix + " + 1))", "((" + ix + " + 1) >= builtin.len(" + in + "))":
+			return a["next"] == "EOF", true
+		case "(" + ix + " < 2)":
+			return a["prev"] == "NONE", true
+		}
+		return false, false
+	}}
+	// pre-flight: every atom must be understood, otherwise leave the helper undecided
+	t, err := fw.ExtractTable(helper, 0)
+	if err != nil {
+		return
+	}
+	env0 := ip.env(asg{"next": ",", "prev": ":"})
+	for _, atom := range t.Atoms() {
+		if _, ok := env0(atom); !ok {
+			c.Undecided(rule, fw.FuncName(helper)+": decision table over the neighbouring bytes", "condition not understood: "+atom)
+			return
+		}
+	}
+	compareTable(c, rule, fw.FuncName(helper)+": the sign is dropped exactly for the literal -0 (not before a fraction or exponent, not as an exponent sign)", helper, 0,
+		[]tvar{{"next", nextClasses}, {"prev", prevClasses}}, ip,
+		func(a asg) string {
+			if a["prev"] == "e" || a["prev"] == "E" {
+				return "value:false"
+			}
+			switch a["next"] {
+			case ".", "e", "E":
+				return "value:false"
+			}
+			return "value:true"
+		}, nil)
 }
